@@ -1,11 +1,237 @@
+import EpModel.Lemmas.CodecLinkBits
 import EpModel.Model.Codec.LinkEth
 import EpModel.Model.Codec.LinkArp
 import EpModel.Model.Codec.TpUdpTcp
 import EpModel.Model.Codec.TpIcmp
 import EpModel.Model.Codec.TpIgmp
+/-
+  C08 (link layer, ARP and transport half) — every header value survives encode → decode
+  unchanged.
+
+  Per type `T` (model in EpModel/Model/Codec):
+    `encoders_agree` : WF h → all serialisers of the crate produce the same bytes, of exactly
+                       `headerLen h` bytes
+    `decode_encode`  : WF h → fromSlice (toBytes h ++ tail) = ok (h, tail)
+    `decode_wf`      : fromSlice b = ok (h, rest) → WF h ∧ rest = b.drop (headerLen h) ∧ headerLen h ≤ b.length
+    `encode_decode`  : fromSlice b = ok (h, rest) →
+                         toBytes h = maskReserved (b.take (headerLen h)) ∧
+                         fromSlice (toBytes h ++ rest) = ok (h, rest)
+  `maskReserved` is the explicit per-type table of the bits the format reserves or the type
+  normalises.  Everything is universally quantified (all field values, all byte strings).
+-/
 namespace EpModel.Props.C08Link
-open EpModel EpModel.Codec
+open EpModel EpModel.Codec EpModel.Lemmas.Codec
+
+/-! ## Ethernet II -/
+namespace Eth2
+open EpModel.Codec.Eth2
+
+/-- Ethernet II has no reserved bits. -/
+def maskReserved (b : Bytes) : Bytes := b
+
+theorem toBytes_length (h : Eth2) (hw : h.WF) : (toBytes h).length = 14 := by
+  obtain ⟨hd, hs, _⟩ := hw
+  simp [toBytes, hd, hs]
+
+theorem encoders_agree (h : Eth2) (hw : h.WF) :
+    toBytes h = writeOut h ∧ writeToSlice h (headerLen h) = .ok (toBytes h, 0) ∧
+      (toBytes h).length = headerLen h :=
+  ⟨rfl, by simp [writeToSlice, headerLen], toBytes_length h hw⟩
+
+theorem decode_encode (h : Eth2) (tail : Bytes) (hw : h.WF) :
+    fromSlice (toBytes h ++ tail) = .ok (h, tail) := by
+  have hl := toBytes_length h hw
+  unfold fromSlice
+  rw [if_neg (by simp [hl]), drop_append_exact _ _ _ hl]
+  obtain ⟨hd, hs, he⟩ := hw
+  obtain ⟨dst, src, et⟩ := h
+  simp only at hd hs he
+  simp [toBytes, hd, hs, he, sub_append_exact, sub_append_right, be16_append_right, be16_enc16]
+
+theorem decode_wf (b rest : Bytes) (h : Eth2) (hd : fromSlice b = .ok (h, rest)) :
+    h.WF ∧ rest = b.drop (headerLen h) ∧ headerLen h ≤ b.length := by
+  unfold fromSlice at hd
+  split at hd
+  · cases hd
+  · cases hd
+    refine ⟨⟨?_, ?_, be16_lt _ _⟩, rfl, by simp only [headerLen]; omega⟩
+    · exact sub_length _ _ _ (by omega)
+    · exact sub_length _ _ _ (by omega)
+
+theorem encode_decode (b rest : Bytes) (h : Eth2) (hd : fromSlice b = .ok (h, rest)) :
+    toBytes h = maskReserved (b.take (headerLen h)) ∧ fromSlice (toBytes h ++ rest) = .ok (h, rest) := by
+  refine ⟨?_, decode_encode h rest (decode_wf b rest h hd).1⟩
+  unfold fromSlice at hd
+  split at hd
+  · cases hd
+  · cases hd
+    simp only [toBytes, maskReserved, headerLen]
+    rw [enc16_be16 b 12 (by omega), sub_glue b 0 6 6 6 12 rfl rfl, sub_glue b 0 12 12 2 14 rfl rfl,
+      sub_zero]
 
 example : Eth2.sampleMax.WF := by decide
+
+end Eth2
+
+/-! ## UDP -/
+namespace Udp
+open EpModel.Codec.Udp
+
+/-- UDP has no reserved bits. -/
+def maskReserved (b : Bytes) : Bytes := b
+
+theorem toBytes_length (h : Udp) : (toBytes h).length = 8 := by simp [toBytes]
+
+theorem encoders_agree (h : Udp) (_hw : h.WF) :
+    toBytes h = writeOut h ∧ (toBytes h).length = headerLen h :=
+  ⟨rfl, toBytes_length h⟩
+
+theorem decode_encode (h : Udp) (tail : Bytes) (hw : h.WF) :
+    fromSlice (toBytes h ++ tail) = .ok (h, tail) := by
+  have hl := toBytes_length h
+  unfold fromSlice
+  rw [if_neg (by simp [hl]), drop_append_exact _ _ _ hl]
+  obtain ⟨h1, h2, h3, h4⟩ := hw
+  obtain ⟨sp, dp, len, ck⟩ := h
+  simp only at h1 h2 h3 h4
+  simp [toBytes, h1, h2, h3, h4, be16_enc16]
+
+theorem decode_wf (b rest : Bytes) (h : Udp) (hd : fromSlice b = .ok (h, rest)) :
+    h.WF ∧ rest = b.drop (headerLen h) ∧ headerLen h ≤ b.length := by
+  unfold fromSlice at hd
+  split at hd
+  · cases hd
+  · cases hd
+    exact ⟨⟨be16_lt _ _, be16_lt _ _, be16_lt _ _, be16_lt _ _⟩, rfl, by simp only [headerLen]; omega⟩
+
+theorem encode_decode (b rest : Bytes) (h : Udp) (hd : fromSlice b = .ok (h, rest)) :
+    toBytes h = maskReserved (b.take (headerLen h)) ∧ fromSlice (toBytes h ++ rest) = .ok (h, rest) := by
+  refine ⟨?_, decode_encode h rest (decode_wf b rest h hd).1⟩
+  unfold fromSlice at hd
+  split at hd
+  · cases hd
+  · cases hd
+    simp only [toBytes, maskReserved, headerLen]
+    rw [enc16_be16 b 0 (by omega), enc16_be16 b 2 (by omega), enc16_be16 b 4 (by omega),
+      enc16_be16 b 6 (by omega), sub_glue b 0 2 2 2 4 rfl rfl, sub_glue b 0 4 4 2 6 rfl rfl,
+      sub_glue b 0 6 6 2 8 rfl rfl, sub_zero]
+
+example : Udp.sampleMax.WF := by decide
+
+end Udp
+
+/-! ## IGMPv3 group record header -/
+namespace IgmpRec
+open EpModel.Codec.IgmpRec
+
+/-- no reserved bits. -/
+def maskReserved (b : Bytes) : Bytes := b
+
+theorem toBytes_length (h : IgmpRec) (hw : h.WF) : (toBytes h).length = 8 := by
+  simp [toBytes, hw.2.2.2]
+
+theorem encoders_agree (h : IgmpRec) (hw : h.WF) : (toBytes h).length = headerLen h :=
+  toBytes_length h hw
+
+theorem decode_encode (h : IgmpRec) (tail : Bytes) (hw : h.WF) :
+    fromSlice (toBytes h ++ tail) = .ok (h, tail) := by
+  have hl := toBytes_length h hw
+  unfold fromSlice
+  rw [if_neg (by simp [hl]), drop_append_exact _ _ _ hl]
+  obtain ⟨h1, h2, h3, h4⟩ := hw
+  obtain ⟨rt, aux, n, addr⟩ := h
+  simp only at h1 h2 h3 h4
+  simp [toBytes, h3, h4, be16_enc16, sub_append_exact, Nat.mod_eq_of_lt h1, Nat.mod_eq_of_lt h2]
+
+theorem decode_wf (b rest : Bytes) (h : IgmpRec) (hd : fromSlice b = .ok (h, rest)) :
+    h.WF ∧ rest = b.drop (headerLen h) ∧ headerLen h ≤ b.length := by
+  unfold fromSlice at hd
+  split at hd
+  · cases hd
+  · cases hd
+    exact ⟨⟨bAt_lt _ _, bAt_lt _ _, be16_lt _ _, sub_length _ _ _ (by omega)⟩, rfl,
+      by simp only [headerLen]; omega⟩
+
+theorem encode_decode (b rest : Bytes) (h : IgmpRec) (hd : fromSlice b = .ok (h, rest)) :
+    toBytes h = maskReserved (b.take (headerLen h)) ∧ fromSlice (toBytes h ++ rest) = .ok (h, rest) := by
+  refine ⟨?_, decode_encode h rest (decode_wf b rest h hd).1⟩
+  unfold fromSlice at hd
+  split at hd
+  · cases hd
+  · cases hd
+    simp only [toBytes, maskReserved, headerLen]
+    rw [enc16_be16 b 2 (by omega)]
+    show [u8 (bAt b 0)] ++ [u8 (bAt b 1)] ++ sub b 2 2 ++ sub b 4 4 = _
+    rw [sub_one b 0 (by omega), sub_one b 1 (by omega), sub_glue b 0 1 1 1 2 rfl rfl,
+      sub_glue b 0 2 2 2 4 rfl rfl, sub_glue b 0 4 4 4 8 rfl rfl, sub_zero]
+
+example : IgmpRec.sampleMax.WF := by decide
+
+end IgmpRec
+
+/-! ## 802.1Q single VLAN header -/
+namespace Vlan
+open EpModel.Codec.Vlan
+
+/-- no reserved bits (pcp 3 + dei 1 + vid 12 + ether type 16). -/
+def maskReserved (b : Bytes) : Bytes := b
+
+theorem toBytes_length (h : Vlan) : (toBytes h).length = 4 := by simp [toBytes]
+
+theorem encoders_agree (h : Vlan) (_hw : h.WF) :
+    toBytes h = writeOut h ∧ (toBytes h).length = headerLen h :=
+  ⟨rfl, toBytes_length h⟩
+
+theorem decode_encode (h : Vlan) (tail : Bytes) (hw : h.WF) :
+    fromSlice (toBytes h ++ tail) = .ok (h, tail) := by
+  have hl := toBytes_length h
+  unfold fromSlice
+  rw [if_neg (by simp [hl]), drop_append_exact _ _ _ hl]
+  obtain ⟨h1, h2, h3⟩ := hw
+  obtain ⟨pcp, dei, vid, et⟩ := h
+  simp only at h1 h2 h3
+  have hb := vlan_b0_fwd pcp h1 (vid / 256) (by omega) dei
+  have e : vid / 256 % 256 = vid / 256 := by omega
+  simp only [toBytes, e, List.cons_append, List.nil_append, bAt_cons_zero, bAt_cons_succ, u8_toNat,
+    be16_cons_succ]
+  simp only at hb
+  rw [hb.1, hb.2.1, hb.2.2, be16_enc16 _ _ h3]
+  have : vid / 256 * 256 + vid % 256 = vid := by omega
+  simp [this]
+
+theorem decode_wf (b rest : Bytes) (h : Vlan) (hd : fromSlice b = .ok (h, rest)) :
+    h.WF ∧ rest = b.drop (headerLen h) ∧ headerLen h ≤ b.length := by
+  unfold fromSlice at hd
+  split at hd
+  · cases hd
+  · cases hd
+    have hb := vlan_b0_bwd (bAt b 0) (bAt_lt _ _)
+    have := bAt_lt b 1
+    refine ⟨⟨hb.2.1, ?_, be16_lt _ _⟩, rfl, by simp only [headerLen]; omega⟩
+    have := hb.2.2
+    simp only
+    omega
+
+theorem encode_decode (b rest : Bytes) (h : Vlan) (hd : fromSlice b = .ok (h, rest)) :
+    toBytes h = maskReserved (b.take (headerLen h)) ∧ fromSlice (toBytes h ++ rest) = .ok (h, rest) := by
+  refine ⟨?_, decode_encode h rest (decode_wf b rest h hd).1⟩
+  unfold fromSlice at hd
+  split at hd
+  · cases hd
+  · cases hd
+    have hb := vlan_b0_bwd (bAt b 0) (bAt_lt _ _)
+    have h1 := bAt_lt b 1
+    have h16 := hb.2.2
+    simp only [toBytes, maskReserved, headerLen]
+    have e1 : ((bAt b 0 &&& 0b1111) * 256 + bAt b 1) / 256 % 256 = bAt b 0 &&& 0b1111 := by omega
+    rw [e1, u8_congr _ (bAt b 0) (by rw [hb.1, Nat.mod_eq_of_lt (bAt_lt _ _)]), u8_congr ((bAt b 0 &&& 0b1111) * 256 + bAt b 1) (bAt b 1) (by omega),
+      enc16_be16 b 2 (by omega)]
+    show [u8 (bAt b 0)] ++ [u8 (bAt b 1)] ++ sub b 2 2 = _
+    rw [sub_one b 0 (by omega), sub_one b 1 (by omega), sub_glue b 0 1 1 1 2 rfl rfl,
+      sub_glue b 0 2 2 2 4 rfl rfl, sub_zero]
+
+example : Vlan.sampleMax.WF := by decide
+
+end Vlan
 
 end EpModel.Props.C08Link
